@@ -51,14 +51,14 @@ theorem own_replace (s : St) (k : Nat) (r : Rec) (v : Option Rec) (h : Own s) (h
 
 theorem inv3_setRec_keep (s : St) (k : Nat) (r r' : Rec) (h : Inv3 s) (hk : s.key k = some r)
     (hg : r'.gen = r.gen) (hco : r'.cancelOf = r.cancelOf)
-    (hc : r'.cur = none ∨ (r'.cur = r.cur ∧ r'.exited = r.exited))
+    (hc : (r'.cur = none ∧ r'.exited = r.exited) ∨ (r'.cur = r.cur ∧ r'.exited = r.exited))
     (hfn : r'.hasFn = r.hasFn := by rfl) : Inv3 (setRec s k (some r')) :=
   ⟨kinv_setRec s k r r' h.k hk hg hc hfn, own_setRec_keep s k r r' h.own hk hg hco,
    ownc_congr (s := s) rfl rfl h.ownc⟩
 
 /-- cancel, then store a record with the same generation that no longer holds a cancel function -/
 theorem inv3_cancel_set (s : St) (k : Nat) (r r' : Rec) (h : Inv3 s) (hk : s.key k = some r)
-    (hg : r'.gen = r.gen) (hc : r'.cur = none ∨ (r'.cur = r.cur ∧ r'.exited = r.exited))
+    (hg : r'.gen = r.gen) (hc : (r'.cur = none ∧ r'.exited = r.exited) ∨ (r'.cur = r.cur ∧ r'.exited = r.exited))
     (hfn : r'.hasFn = r.hasFn := by rfl) :
     Inv3 (setRec (cancelOpt s r.gen r.cancelOf) k (some r')) :=
   ⟨kinv_setRec _ k r r' (kinv_cancelOpt s r.gen r.cancelOf h.k) (by simpa using hk) hg hc hfn,
@@ -153,7 +153,7 @@ theorem inv3_removeNow (s : St) (k : Nat) (r : Rec) (h : Inv3 s) (hk : s.key k =
    ownc_congr (s := cancelOpt s r.gen r.cancelOf) rfl rfl (ownc_cancelOpt s r.gen r.cancelOf h.ownc)⟩
 
 theorem inv3_congr {s s' : St} (hk : s'.keys = s.keys) (hg : s'.gens = s.gens) (hc : s'.ctx = s.ctx)
-    (h : Inv3 s) (hn : s'.nilNext = s.nilNext := by rfl) : Inv3 s' :=
-  ⟨kinv_congr hk hg h.k hn, own_congr hk hg h.own, ownc_congr hg hc h.ownc⟩
+    (h : Inv3 s) : Inv3 s' :=
+  ⟨kinv_congr hk hg h.k, own_congr hk hg h.own, ownc_congr hg hc h.ownc⟩
 
 end UtilModel.Keyed
